@@ -57,8 +57,15 @@ Bump(f) == [stats EXCEPT ![f] = @ + 1]
 
 StepNext(e) ==
   LET pre == rs[e.r]
-      t == Big(P, pre, e.in)
+      t0 == Big(P, pre, e.in)
       o == e.obs
+      \* The built-in <<wait n>> sleeps in a goroutine of the library: for a small n its completion
+      \* may already be visible when the dispatching call looks ("a handler may be complete on
+      \* return"): if the model's call ends waiting on a wait command and the library's did not,
+      \* the legal schedule is the one where the completion was consumed by the same call.
+      doneOnReturn == t0.out.k = "waiting" /\ t0.cmd.st = "run" /\ t0.cmd.arg.t = "n" /\ o.out.k # "waiting"
+                      /\ pre.cmd.st = "none"
+      t == IF doneOnReturn THEN Big(P, t0, InDone(0, FALSE)) ELSE t0
       mism == (IF o.out # t.out THEN <<"out">> ELSE <<>>)
            \o (IF o.ccalls # t.ccalls THEN <<"ccalls">> ELSE <<>>)
            \o (IF o.fcalls # t.fcalls THEN <<"fcalls">> ELSE <<>>)
@@ -71,16 +78,18 @@ StepNext(e) ==
       \* <<wait n>> reports completion no earlier than n seconds after it started (C10):
       \* the call that resumes ended at t1, the call that dispatched began at disp[r]
       isWaitDone == pre.cmd.st = "run" /\ pre.cmd.arg.t = "n" /\ e.in.done
-      early == isWaitDone /\ (e.t1 - disp[e.r]) * pre.cmd.arg.d < pre.cmd.arg.n * 1000
+      early == \/ isWaitDone /\ (e.t1 - disp[e.r]) * pre.cmd.arg.d < pre.cmd.arg.n * 1000
+               \/ doneOnReturn /\ (e.t1 - e.t0) * t0.cmd.arg.d < t0.cmd.arg.n * 1000
   IN IF t.out.k = "oos"
      THEN \* outside the modelled window: no verdict, except that a panic is never acceptable
           /\ skip' = TRUE /\ stats' = Bump("oos") /\ UNCHANGED <<rs, snaps>>
           /\ bad' = IF o.out.k = "panic" THEN Report(e, "out", <<"out">>, [k |-> "anything but a panic"], o.out, pre) ELSE bad
      ELSE IF early
      THEN /\ skip' = TRUE /\ stats' = Bump("checked")
-          /\ bad' = Report(e, "wait-too-early", <<"wait-too-early">>,
-                           [seconds |-> pre.cmd.arg, atLeastMs |-> (pre.cmd.arg.n * 1000) \div pre.cmd.arg.d],
-                           [elapsedMs |-> e.t1 - disp[e.r]], pre)
+          /\ bad' = LET w == IF doneOnReturn THEN t0.cmd.arg ELSE pre.cmd.arg IN
+                    Report(e, "wait-too-early", <<"wait-too-early">>,
+                           [seconds |-> w, atLeastMs |-> (w.n * 1000) \div w.d],
+                           [elapsedMs |-> IF doneOnReturn THEN e.t1 - e.t0 ELSE e.t1 - disp[e.r]], pre)
           /\ UNCHANGED <<rs, snaps>>
      ELSE IF mism # <<>>
      THEN /\ skip' = TRUE /\ stats' = Bump("checked")
